@@ -1,6 +1,5 @@
 (* reads: id \t kind \t input \t impl_out ; writes: id \t model_out \t verdict *)
 let () =
-  ignore P_c25.get_set; ignore P_c26.get_graph; ignore P_c24.get_tables; ignore P_c28.styles; ignore P_c27.put_chunks; ignore P_c08.get_las; ignore P_c05.get_default_enc; ignore P_c06.mk_tokens; ignore P_c03.get_grammar;
   try
     while true do
       let line = input_line stdin in
